@@ -8,7 +8,9 @@
 (***************************************************************************)
 EXTENDS Universe, Json, IOUtils
 
-CONSTANTS Tier        \* "d0" | "d1" | "d2": which slice of the type universe
+CONSTANTS Tier,       \* "d0" | "d1" | "d2" | "obj" | "u": which slice of the type universe
+          Coerce,     \* BOOLEAN: is coercion part of the option space of this run
+          Deviations  \* named deviations of the implementation-shaped layer (negative checks)
 VARIABLES T, O, d, res, phase
 vars == <<T, O, d, res, phase>>
 
@@ -16,6 +18,7 @@ Types == CASE Tier = "d0" -> TypesD0
            [] Tier = "d1" -> TypesD0 \cup TypesD1
            [] Tier = "d2" -> TypesD2
            [] Tier = "obj" -> ObjTypes
+           [] Tier = "u"  -> TypesU
 
 Shard   == IF "SHARD" \in DOMAIN IOEnv THEN IOEnv.SHARD ELSE "0/1"
 Emit    == "EMIT" \in DOMAIN IOEnv /\ IOEnv.EMIT = "1"
@@ -24,7 +27,7 @@ Emit    == "EMIT" \in DOMAIN IOEnv /\ IOEnv.EMIT = "1"
 ASSUME Emit => PrintT(ToJson([header |-> TRUE, classes |-> UClasses, enums |-> UEnums,
                               senv |-> UStrAttr, aliasers |-> UAliasers]))
 
-Opts == { Opt(a, f, FALSE, al) : a \in BOOLEAN, f \in BOOLEAN, al \in {"id", "upper"} }
+Opts == { Opt(a, f, c, al) : a \in BOOLEAN, f \in BOOLEAN, c \in (IF Coerce THEN BOOLEAN ELSE {FALSE}), al \in {"id", "upper"} }
 \* options that cannot matter for a type without objects are not multiplied
 RECURSIVE HasObj(_)
 HasObj(t) == CASE t.k = "obj" -> TRUE
@@ -36,7 +39,7 @@ HasObj(t) == CASE t.k = "obj" -> TRUE
                [] t.k = "union" -> \E i \in DOMAIN t.alts : HasObj(t.alts[i])
                [] t.k = "dunion" -> TRUE
                [] OTHER -> FALSE
-OptsFor(t) == IF HasObj(t) THEN Opts ELSE {Opt(FALSE, FALSE, FALSE, "id")}
+OptsFor(t) == IF HasObj(t) THEN Opts ELSE {Opt(FALSE, FALSE, c, "id") : c \in (IF Coerce THEN BOOLEAN ELSE {FALSE})}
 
 Init == /\ T \in Types
         /\ O \in OptsFor(T)
@@ -84,6 +87,16 @@ AdditionalWidens ==
       RD(Ctx([O EXCEPT !.addl = TRUE]), T, <<>>, d).ok
 NoUnexpectedWhenAllowed ==
   phase = "done" /\ O.addl => \A q \in res.e \cup res.x : q[2] # "unexpected"
+
+\* C13: the strategy the code selects for a union (Optional / by-type dispatch / in order) gives
+\* the outcome of "the first accepting alternative" -- same acceptance, same image up to
+\* the int/float ambiguity, errors within the sandwich
+Impl == RD(Ctx([O EXCEPT !.impl = TRUE, !.dev = Deviations]), T, <<>>, d)
+DispatchEqSequential ==
+  phase = "done" /\ ~IsUnspec(res) /\ ~IsUnspec(Impl) =>
+     /\ Impl.ok = res.ok
+     /\ res.ok => ImageEq(Ctx(O), T, res.v, Impl.v)
+     /\ ~res.ok => Satisfied(res.e, Impl.e) /\ Permitted(Impl.e, res.e, res.x)
 
 \* C01: the image of conforming data re-conforms when read as Any (it is JSON-shaped
 \* data again only for Any; here: accepted data never carries a "py" kind)
